@@ -44,7 +44,10 @@ MgCliOK(e) == LET m == MCases[e.i].m IN
 BadOK(e) == ~e.panic /\ In4xx(e.st) /\ e.queries = 0 /\ e.mut = 0
 
 Accept(e) == CASE e.k = "srv" -> SrvOK(e) [] e.k = "cli" -> CliOK(e) [] e.k = "mgsrv" -> MgSrvOK(e) [] e.k = "mgcli" -> MgCliOK(e)
-               [] e.k = "bad" -> BadOK(e) [] OTHER -> FALSE
+               [] e.k = "bad" -> BadOK(e)
+               \* a multiget without paths names the addressed collection itself, on every use of the same request value
+               [] e.k = "mgself" -> ~e.err /\ e.first = <<"first">> /\ e.second = <<"second">>
+               [] OTHER -> FALSE
 
 \* signature: direction, which part differs
 Diff(a, b) == (IF a.allprop # b.allprop \/ a.props # b.props THEN " selection" ELSE "") \o (IF a.test # b.test THEN " test" ELSE "")
@@ -70,6 +73,7 @@ Sig(e) == CASE e.k = "srv" -> LET q == QCases[e.i].q IN
                  ELSE "client->wire altered:" \o Diff(Denotes(e.doc[1]), Norm(q))
             [] e.k = "mgsrv" -> "multiget wire->backend st=" \o ToString(e.st) \o (IF e.paths # MCases[e.i].m.hrefs THEN " hrefs" ELSE " data-request")
             [] e.k = "mgcli" -> "multiget client->wire" \o (IF e.err THEN " error" ELSE IF Len(e.doc) = 1 /\ MultigetShape(e.doc[1]) /\ MultigetDenotes(e.doc[1]).hrefs # MCases[e.i].m.hrefs THEN " hrefs" ELSE " other")
+            [] e.k = "mgself" -> "multiget without paths, request value used twice: " \o (IF e.err THEN "error" ELSE IF e.first # <<"first">> THEN "first call names something else" ELSE "second call does not name the second collection")
             [] e.k = "bad" -> "invalid-document (" \o BadCases[e.i].kind \o ") st=" \o ToString(e.st) \o " queries=" \o ToString(e.queries)
             [] OTHER -> "unknown-event"
 
